@@ -126,7 +126,7 @@ func (f FFT) Transform(x []complex128) []complex128 {
 	n := 1
 	s := f.N
 	for p := 1; p <= f.p; p++ {
-		s = s / 2
+		s >>= 1
 		for b := 0; b < s; b++ {
 			o := 2 * b * n
 			for k := 0; k < n; k++ {
